@@ -241,6 +241,7 @@ class GitStore(Store):
         data: Iterable[bytes],
         message: str,
         author: Optional[str] = None,
+        precondition=None,
     ):
         raise NotImplementedError(self._import_one)
 
@@ -337,7 +338,15 @@ class GitStore(Store):
             except KeyError:
                 old_fi = None
             message = "\n".join(fi.describe_delta(name, old_fi))
-        etag = self._import_one(name, fi.normalized(), message, author=author)
+        etag = self._import_one(
+            name,
+            fi.normalized(),
+            message,
+            author=author,
+            # Checked again once the store is locked, since another writer
+            # may have got in since the check above.
+            precondition=lambda: self._check_duplicate(uid, name, replace_etag),
+        )
         return (name, etag.decode("ascii"))
 
     def _get_raw(self, name, etag=None):
@@ -626,6 +635,7 @@ class BareGitStore(GitStore):
         data: Iterable[bytes],
         message: str,
         author: Optional[str] = None,
+        precondition=None,
     ) -> bytes:
         """Import a single object.
 
@@ -634,8 +644,12 @@ class BareGitStore(GitStore):
           data: serialized object as bytes
           message: optional commit message
           author: optional author
+          precondition: optional callable that raises if the write must
+            not happen
         Returns: etag
         """
+        if precondition is not None:
+            precondition()
         b = Blob()
         b.chunked = data
         tree = self._get_current_tree()
@@ -724,6 +738,7 @@ class TreeGitStore(GitStore):
         data: Iterable[bytes],
         message: str,
         author: Optional[str] = None,
+        precondition=None,
     ) -> bytes:
         """Import a single object.
 
@@ -732,10 +747,14 @@ class TreeGitStore(GitStore):
           data: serialized object as list of bytes
           message: Commit message
           author: Optional author
+          precondition: optional callable that raises if the write must
+            not happen; called with the index locked
         Returns: etag
         """
         try:
             with locked_index(self.repo.index_path()) as index:
+                if precondition is not None:
+                    precondition()
                 p = os.path.join(self.repo.path, name)
                 with open(p, "wb") as f:
                     f.writelines(data)
@@ -779,13 +798,17 @@ class TreeGitStore(GitStore):
         if message is None:
             fi = open_by_extension(current_blob.chunked, name, self.extra_file_handlers)
             message = "Delete " + fi.describe(name)
-        if etag is not None:
-            with open(p, "rb") as f:
-                current_etag = current_blob.id
-            if etag.encode("ascii") != current_etag:
-                raise InvalidETag(name, etag, current_etag.decode("ascii"))
         try:
             with locked_index(self.repo.index_path()) as index:
+                # Look again now that the index is locked: another writer
+                # may have replaced or removed the item in the meantime.
+                try:
+                    with open(p, "rb") as f:
+                        current_etag = Blob.from_string(f.read()).id
+                except FileNotFoundError as exc:
+                    raise NoSuchItem(name) from exc
+                if etag is not None and etag.encode("ascii") != current_etag:
+                    raise InvalidETag(name, etag, current_etag.decode("ascii"))
                 os.unlink(p)
                 del index[name.encode(DEFAULT_ENCODING)]
                 self._commit_tree(
